@@ -17,7 +17,9 @@
 (***************************************************************************)
 EXTENDS Integers, Sequences, FiniteSets, TLC
 
-CONSTANTS BackSeek, MaxMatch, PrefixFix, PlaintiffFix
+CONSTANTS BackSeek, MaxMatch, PrefixFix, PlaintiffFix,
+          TokenFloor   \* TRUE: the repaired code (the span never ends before the token does); FALSE: the original:
+                       \* with a page longer than the matcher window the pin-cite match covers only part of the prefix
 
 IsString(w) == w.k = "w"
 Start(words, j) == LET F[m \in 0..Len(words)] == IF m = 0 THEN 0 ELSE F[m-1] + words[m].n IN F[j-1]
@@ -43,7 +45,8 @@ BackLen(words, j, acc) ==
    pin = len(m["pin_cite"].rstrip(", ")) or 0 when the group is empty *)
 PinSpanEnd(tokEnd, pre, matched, pin) ==
     IF ~matched THEN -1                                   \* None: span falls back to the token
-    ELSE tokEnd + (IF pin > 0 THEN pin ELSE (IF PrefixFix THEN pre ELSE 0)) - pre
+    ELSE LET v == tokEnd + (IF pin > 0 THEN pin ELSE (IF PrefixFix THEN pre ELSE 0)) - pre
+         IN  IF TokenFloor /\ v < tokEnd THEN tokEnd ELSE v
 
 (* add_defendant: backward scan.  lead / trail = characters of the joined plaintiff text stripped
    from its left / right end by strip("( ") (trail = 1 for the usual single space before v.).
